@@ -14,39 +14,22 @@ From Coq Require Import NArith List Bool Lia Arith ZifyBool ZifyN ZifyNat.
 Import ListNotations.
 Require Import SR.Base.Res SR.Model.Csv.
 Require SR.Model.Workbook SR.Proofs.WorkbookP.
+(* The definitions of this development that occur in theorem statements (Props/) live in Spec/CsvEvents.v (audit item G1).
+   The abbreviations keep the qualified names CsvP.name of other files resolving; they are parsing-only aliases. *)
+Require Export SR.Spec.CsvEvents.
+Notation ev := SR.Spec.CsvEvents.ev (only parsing).
+Notation emit := SR.Spec.CsvEvents.emit (only parsing).
+Notation finish := SR.Spec.CsvEvents.finish (only parsing).
+Notation run := SR.Spec.CsvEvents.run (only parsing).
+Notation line_events := SR.Spec.CsvEvents.line_events (only parsing).
 Open Scope N_scope.
 
 Notation St := mk_reader.
-Definition ev := option N.
 
 Lemma frev_rev {A} (l : list A) : frev l = rev l.
 Proof. unfold frev. rewrite rev_append_rev. apply app_nil_r. Qed.
 
 (* ================================================================ Part A: one machine over events *)
-Definition emit (row : list text) (p : list (list text) * option exn) : list (list text) * option exn :=
-  (row :: fst p, snd p).
-
-(* the iterator is exhausted *)
-Definition finish (r : reader) : list (list text) * option exn :=
-  if negb (r_len r =? 0) || state_eqb (r_state r) IN_QUOTED_FIELD
-  then ([frev (r_fields (save_field r))], None)
-  else ([], None).
-
-Fixpoint run (d : N) (r : reader) (es : list ev) : list (list text) * option exn :=
-  match es with
-  | [] => finish r
-  | e :: t =>
-      match process_char d r e with
-      | Err x => ([], Some x)
-      | Ok r' =>
-          match e, r_state r' with
-          | None, START_RECORD => emit (frev (r_fields r')) (run d reset t)
-          | _, _ => run d r' t
-          end
-      end
-  end.
-
-Definition line_events (l : text) : list ev := map Some l ++ [None].
 
 Lemma run_line d : forall (l : text) r rest,
   run d r (map Some l ++ None :: rest)
